@@ -181,13 +181,20 @@ def run(ctx: C.Ctx):
     for i in range(n_asg):
         progs.append(G.gen_asg_program(rng, maxdepth=rng.choice([2, 3, 3, 4])))
     progs += G.systematic_asg_programs()
+    # fourth round: helpers with nested bodies called (in assignments) with 2-3 argument-type signatures - the firmware holds
+    # one variant of the def per signature, each parsed again from the lines _parse_function keeps
+    n_var = 70 if thorough else 8
+    var_from = len(progs)
+    for i in range(n_var):
+        progs.append(G.gen_variant_program(rng, maxdepth=rng.choice([2, 3, 3, 4])))
+    progs += G.systematic_variant_programs()
     progs = [G.imports_as_directives(tops) for tops in progs]
     _learn_replines(progs)
     inguard = []       # (prog index, unit, ltops, final junk, lines)
     for pi, tops in enumerate(progs):
         lt, fj = G.canonical(tops)
         inguard.append((pi, "    ", lt, fj, G.render(lt, fj, "    ")))
-        for j in range(n_lay if pi < n_prog else 2 if (pi < rep_from or thorough) else 1):
+        for j in range(n_lay if pi < n_prog else 2 if (pi < rep_from or thorough or pi >= var_from) else 1):
             u = rng.choice(G.UNITS)
             dens = rng.choice([0.15, 0.35, 0.6])
             sp = rng.choice([0.0, 0.5, 0.9])
@@ -261,7 +268,9 @@ def run(ctx: C.Ctx):
         if base[pi][0] is lines:
             for kname, v in (("continue_in_for_or_while", want_c), ("continue_at_main_loop_level", want_r)):
                 dist["formerly_excluded_now_generated"][kname] = dist["formerly_excluded_now_generated"].get(kname, 0) + v
-        if got_c != want_c or got_r != want_r:
+        if pi >= var_from:
+            pass          # a def emitted in several variants repeats its `continue;` once per variant: judged per variant by oracle C
+        elif got_c != want_c or got_r != want_r:
             ctx.fail("a `continue` statement left no trace in the firmware (or was duplicated) and no diagnostic was raised", {"script": lines},
                      {"continue;": want_c, "return; in loop()": want_r}, {"continue;": got_c, "return; in loop()": got_r}, key="continue-lost")
         for ent in r.get("ignored") or []:
@@ -336,10 +345,73 @@ def run(ctx: C.Ctx):
                      {"script": lines, "import": form}, {"exc": None, "firmware": _diff_hint(b.get("cpp"), r.get("cpp"), True)},
                      {"exc": r.get("exc"), "firmware": _diff_hint(b.get("cpp"), r.get("cpp"), False)}, key="import-form")
 
+    # ---- oracle B4 (fourth round): AFTER THE MAIN LOOP nothing is accepted silently.  Every kind of top-level construct
+    # (a second `while True:`, def, if, for, while <cond>, try, simple statements, break / continue / return, imports, target(),
+    # pass, print, docstring, global, comment and blank lines) is written at column 0 behind the main loop of an accepted
+    # program, in any of its layouts, with junk lines in between: a statement must make the transpiler REJECT the script; a
+    # line of the fixed set is rejected or leaves the firmware unchanged; comment / blank lines leave it unchanged.
+    with_main = [k for k, (pi, u, lt, fj, lines) in enumerate(inguard)
+                 if progs[pi] and progs[pi][-1][0] == "main" and not impl_in[k].get("exc") and impl_in[k].get("cpp")]
+    al_cases = []
+    al_order = [(name, body, cls) for name, body, cls in G.AFTER_LOOP]
+    # first every construct behind a minimal script (the smallest replay), then behind generated programs in random layouts
+    mini = list(G.PRELUDE) + ["while True:  # main loop", "    led.toggle()", "    sleep(500)"]
+    mini_res = C.run_impl("c07_impl.py", {"cases": [["trace", mini]]})[0]
+    if mini_res.get("exc") or not mini_res.get("cpp"):
+        ctx.fail("a minimal script (prelude + main loop) is rejected", {"script": mini}, "accepted", mini_res.get("exc"), key="canonical-rejected")
+    for name, body, cls in al_order:
+        al_cases.append((name, cls, mini_res, mini + list(body)))
+    for j in range((6 if thorough else 1) * len(al_order)):
+        if not with_main:
+            break
+        name, body, cls = al_order[j % len(al_order)]
+        k = rng.choice(with_main)
+        lines = list(inguard[k][4])
+        gap = [rng.choice(["", "# done", "   ", "    # inner-looking comment", "\t"]) for _ in range(rng.choice([0, 0, 1, 2]))]
+        tail = [rng.choice(["", "# eof", "  "]) for _ in range(rng.choice([0, 0, 1]))]
+        al_cases.append((name, cls, impl_in[k], lines + gap + list(body) + tail))
+    al_res = C.run_impl("c07_impl.py", {"cases": [["trace", l] for _, _, _, l in al_cases]}, timeout=3000) if al_cases else []
+    if have_model and al_cases:
+        both = ctx.model([[24, l] for _, _, _, l in al_cases] + [[25, l, r["trace"]] for (_, _, _, l), r in zip(al_cases, al_res)])
+        al_model, al_explain = both[: len(al_cases)], both[len(al_cases):]
+    else:
+        al_model = al_explain = [None] * len(al_cases)
+    al_dist = {}
+    for (name, cls, b, lines), r, mo, me in zip(al_cases, al_res, al_model, al_explain):
+        evaluations += 1
+        rejected = bool(r.get("exc")) and not str(r.get("exc")).startswith("emit:")
+        same = (not r.get("exc")) and r.get("cpp") == b.get("cpp")
+        al_dist[name] = al_dist.get(name, 0) + 1
+        nontrivial.add(("after-loop", name, "\n".join(lines)))
+        if cls == "statement" and not rejected:
+            ctx.fail(f"a statement AFTER the main loop ({name}: {G.AFTER_LOOP[[n for n, _, _ in G.AFTER_LOOP].index(name)][1][0]!r} ...) is accepted without a diagnostic: Python never reaches it, "
+                     "the firmware either loses it silently or runs it in a phase Python does not (e.g. merged into loop(), emitted as a function)",
+                     {"script": lines, "after_the_main_loop": name}, "rejected with an error",
+                     {"exc": r.get("exc"), "firmware differs from the script without it": r.get("cpp") != b.get("cpp"),
+                      "loop()": (r.get("cpp") or "").split("void loop() {", 1)[-1].splitlines()[:12]}, key="after-main-loop-accepted:" + name)
+        elif cls == "fixed" and not (rejected or same):
+            ctx.fail(f"a line of the fixed set AFTER the main loop ({name}) changes the firmware", {"script": lines, "after_the_main_loop": name},
+                     "rejected, or the firmware of the script without it", _diff_hint(b.get("cpp"), r.get("cpp"), False), key="after-main-loop-fixed:" + name)
+        elif cls == "junk" and not same:
+            ctx.fail(f"comment / blank lines AFTER the main loop ({name}) change the firmware or make the script rejected", {"script": lines},
+                     {"exc": None, "firmware": "unchanged"}, {"exc": r.get("exc"), "firmware": _diff_hint(b.get("cpp"), r.get("cpp"), False)},
+                     key="after-main-loop-junk:" + name)
+        if mo is not None and mo[0] == 0:
+            m_acc = bool(mo[1])
+            if (cls != "junk") == m_acc:
+                ctx.disagree("TopFlow.parse_flow: a non-junk line after the main loop is rejected, junk lines are passed over", lines, m_acc, cls)
+            if not m_acc and not rejected:
+                ctx.disagree("parse() vs TopFlow.parse_flow (the model rejects: a statement after the main loop)", lines, "rejected", r.get("exc"))
+            elif (not m_acc or not r.get("exc")) and (me is None or me[0] != 0 or not me[1]):
+                ctx.disagree("calls of _parse_simple_lines up to the end / the rejection vs TopFlow.flow_trace (+ variant segments)", lines,
+                             [[e[0], e[1], texts(e[2])] for e in mo[2]], r["trace"])
+    dist["after_main_loop_constructs"] = al_dist
+
     # ---- oracle C: the block structure of the FIRMWARE is Python's (every control header of the script once, every
     # numbered statement and every break/continue/return under the conditions and in the function/phase Python puts
     # it - for a member of an if chain: its own condition and the negation of every earlier one), canonical layout
     n_items = 0
+    var_dist = {"programs": len(progs) - var_from, "functions_called_with_arguments": 0, "variant_sections_judged": 0}
     struct_kinds = {}
     struct_fail = []
     for pi in sorted(base):
@@ -354,6 +426,17 @@ def run(ctx: C.Ctx):
             struct_kinds[kname] = struct_kinds.get(kname, 0) + 1
             if len(p_) > 1:
                 nontrivial.add(("struct", pi, repr(p_), repr(it)))
+        if pi >= var_from:
+            per_name = {}
+            for nm, hd, _ in F.sections(r["cpp"]):
+                per_name.setdefault(nm, set()).add(hd)
+            for nm in G.variant_defs(progs[pi]):
+                nv = len(per_name.get(nm, ()))
+                var_dist["functions_called_with_arguments"] += 1
+                var_dist["variants_emitted:" + str(nv)] = var_dist.get("variants_emitted:" + str(nv), 0) + 1
+                var_dist["variant_sections_judged"] += nv
+                if nv >= 2:
+                    nontrivial.add(("variants", pi, nm, nv))
         verdict = _structure_verdict(progs[pi], r["cpp"])
         if verdict is not None:
             struct_fail.append((len(lines), pi, verdict[0]))
@@ -386,19 +469,35 @@ def run(ctx: C.Ctx):
                            "default_valued_assignment_directly_before_compound": asg_default_before_compound,
                            "reference_lines_learnt": {k: len(v) for k, v in sorted(REPLINES.items())}}
     dist["hollow_bodies"] = _count_hollow(progs)
+    dist["function_variants"] = var_dist
 
     _tick("1 transpile + oracles A-C")
     # ================================================================ 2. model vs code: call tree of _parse_simple_lines
     n_trace = 0
+    n_variant_traces = 0
     if have_model:
         model = ctx.model([[5, l] for l in all_scripts])
+        trace_retry = []
         for l, r, m in zip(all_scripts, impl, model):
             n_trace += 1
             mt = [[e[0], e[1], texts(e[2])] for e in m[1]]
             rt = r["trace"]
             ok = (mt[: len(rt)] == rt) if (r["exc"] and not r["exc"].startswith("emit:")) else (mt == rt)
             if not ok:
-                ctx.disagree("call tree of _parse_simple_lines (scope, depth, snippet)", l, mt, rt)
+                trace_retry.append((l, mt, rt, r["exc"]))
+        # a trace that is not the script's own: it must be the own trace with the calls of function re-specialisations
+        # (TopFlow.variant_calls of a def of the script: the KEPT lines parsed again at depth 1, scope function) inserted
+        if trace_retry:
+            m25 = ctx.model([[25, l, [[c[0], c[1], c[2]] for c in rt]] for (l, mt, rt, exc) in trace_retry])
+            for (l, mt, rt, exc), mo in zip(trace_retry, m25):
+                if exc and not exc.startswith("emit:"):
+                    ctx.disagree("call tree of _parse_simple_lines (scope, depth, snippet) of a rejected script", l, mt, rt)
+                elif mo[0] != 0 or not mo[1]:
+                    ctx.disagree("call tree of _parse_simple_lines (scope, depth, snippet): not the script's own calls with the re-specialisation "
+                                 "calls of its defs (the kept body lines, parsed again) inserted", l, mt, rt)
+                else:
+                    n_variant_traces += 1
+                    nontrivial.add(("variant-trace", "\n".join(l)))
         evaluations += n_trace
 
         # ---- the round trip on in-guard layouts: Coq renderer = Python renderer, skeleton parser gives back the skeleton
@@ -480,7 +579,7 @@ def run(ctx: C.Ctx):
             lines, r = base[pi]
             if r.get("exc") or not r.get("cpp"):
                 continue
-            secs = {n: b for n, _, b in F.sections(r["cpp"])}
+            secs = F.sections(r["cpp"])
             for name, nodes, where in _py_sections(progs[pi]):
                 tabs = _tables(nodes, where)
                 if tabs is None:
@@ -488,8 +587,10 @@ def run(ctx: C.Ctx):
                 snippet = []
                 for n in G.canonical([("chain", nodes)])[0][0][1]:
                     snippet += G.render_node(n, "    ", 0)
-                c16.append([16, snippet] + tabs)
-                meta16.append((lines, name, secs.get(name, []), F.marks_of(progs[pi])))
+                # every section of that name: a function emitted in several variants is compared variant by variant
+                for body in ([b for n_, _, b in secs if n_ == name] or [[]]):
+                    c16.append([16, snippet] + tabs)
+                    meta16.append((lines, name, body, F.marks_of(progs[pi])))
         m16 = ctx.model(c16)
         for (lines, name, body, marks), mo in zip(meta16, m16):
             n_emit += 1
@@ -502,6 +603,7 @@ def run(ctx: C.Ctx):
                              lines, want, got)
         evaluations += n_emit
     dist["emitter_ir_nodes"] = ir_dist
+    dist["function_variants"]["call_traces_with_re_specialisation_segments"] = n_variant_traces
 
     _tick("2b emitter")
     # ================================================================ 2c. statement layer: promotion rewrite, _emit_block and its sets
@@ -716,6 +818,10 @@ def run(ctx: C.Ctx):
             ctx.fail(f"a {kind} statement in context {cname} disappears from the firmware without a diagnostic (not in the fixed set, not a listed finding)",
                      {"script": script, "probe": D.KINDS[D.KIND_IDS.index(kind)][1]}, "translated or rejected", "identical firmware with and without the statement",
                      key="silent-drop:" + kind)
+        elif not pinned_ok and cname == "AfterLoop":
+            ctx.fail(f"a {kind} statement at column 0 AFTER the main loop is {oc.lower()} instead of rejected: Python never reaches it, so nothing of it "
+                     "may reach the firmware and it may not vanish without a diagnostic",
+                     {"script": script, "probe": D.KINDS[D.KIND_IDS.index(kind)][1]}, "Rejected (comment / blank lines: Ignored)", oc, key="after-main-loop:" + kind)
         elif not pinned_ok:
             ctx.fail(f"a supported {kind} statement in context {cname} is now {oc.lower()}",
                      {"script": script, "probe": D.KINDS[D.KIND_IDS.index(kind)][1]}, "as pinned by DispatchSpec.pinned", oc, key="pinned:" + kind)
@@ -1007,13 +1113,27 @@ def _structure_verdict(tops, cpp):
     """None, or (class key, what, expected, observed) when the firmware does not have the script's block structure"""
     want = F.py_items(tops, REPLINES)
     spec = {"vocab": {l for t in G.rep_texts(tops) for l in REPLINES.get(t, [])}, "vars": G.asg_names(tops)}
-    got, problem = F.fw_items(cpp, F.marks_of(tops), spec)
-    if got is None:
-        return ("firmware-unbalanced", "the emitted firmware is not a sequence of closed compound statements",
-                "balanced braces in every function", problem)
-    missing, extra = F.items_diff(want, got)
-    if not missing and not extra:
+    # a function the script calls with several argument-type signatures is emitted once per signature: EVERY variant
+    # must have the block structure of the def (view j keeps the j-th variant of every function)
+    views = F.variant_views(cpp)
+    for vi, view in enumerate(views):
+        got, problem = F.fw_items(cpp, F.marks_of(tops), spec, secs=view)
+        if got is None:
+            return ("firmware-unbalanced", "the emitted firmware is not a sequence of closed compound statements",
+                    "balanced braces in every function", problem)
+        missing, extra = F.items_diff(want, got)
+        if missing or extra:
+            break
+    else:
         return None
+    if len(views) > 1:
+        hdrs = [h for _, h, _ in view if not h.startswith(("void setup", "void loop"))]
+        kind = (missing or extra)[0][1]
+        return ("variant-block-structure:" + str(kind[0]),
+                "a VARIANT of a function (the body parsed again for another argument-type signature) does not have the block structure of "
+                "the def: a control-flow header is missing / added, or a statement runs under other conditions than Python gives it",
+                {"variant(s) looked at": hdrs, "only in the script (path, item)": F.show(missing)},
+                {"only in the firmware (path, item)": F.show(extra)})
     kind = (missing or extra)[0][1]
     if kind[0] in ("line", "asg"):
         n_m = len([x for x in missing if x[1][0] == kind[0]])
@@ -1257,7 +1377,7 @@ def _norm_fw(trees, marks):
     for t in trees:
         if t[0] == 0:
             s = t[1]
-            if s in ("continue;", "break;", "return;"):
+            if s in ("continue;", "break;", "return;") or s.startswith("return "):
                 out.append([0, s])
             elif F.MARK_LINE.match(s):
                 for tok in re.findall(r"(?<![\w.])\d+(?![\w.])", s):
